@@ -158,15 +158,37 @@ func c02Judge(c *core.Ctx, in []byte, section string, distinctByInput bool) {
 	if gen.HashBytes(in)%3 == 0 || gen.HashBytes(in)%5 == 1 {
 		// a destination that already reported another message's attribute list
 		_ = stun.Decode(c02Previous, m)
+	} else if gen.HashBytes(in)%11 < 3 {
+		// ... or a much longer message: its bytes are still in the buffer behind whatever comes next
+		_ = stun.Decode(c02PreviousBig, m)
 	}
 	var err error
-	inPlace := gen.HashBytes(in)%5 == 1
+	h := gen.HashBytes(in)
+	inPlace := h%5 == 1
+	arg := in
+	if !inPlace && h%7 >= 3 {
+		arg = append([]byte(nil), in...) // handed to a copying entry point and overwritten afterwards
+	}
 	if p, stack := safely(func() {
-		if inPlace {
+		switch {
+		case inPlace:
 			m.Raw = append([]byte(nil), in...) // the caller fills Raw itself and calls the method (what ReadFrom does)
 			err = m.Decode()
-		} else {
+		case h%7 == 3: // the other entry points that take bytes: whichever is used, the verdict and the content are the same
+			err = m.UnmarshalBinary(arg)
+		case h%7 == 4:
+			err = m.GobDecode(arg)
+		case h%7 == 5:
+			_, err = m.Write(arg)
+		case h%7 == 6:
+			err = (&stun.Message{Raw: arg}).CloneTo(m)
+		default:
 			err = stun.Decode(in, m)
+		}
+		if !inPlace && h%7 >= 3 {
+			for k := range arg {
+				arg[k] ^= 0xA5
+			}
 		}
 	}); p != nil {
 		reportPanic(c, "Decode", p, stack, map[string]interface{}{"input_hex": core.Hex(in)})
@@ -208,6 +230,16 @@ func c02Judge(c *core.Ctx, in []byte, section string, distinctByInput bool) {
 }
 
 var errCallback = errors.New("callback error")
+
+// c02PreviousBig is a long message made of many well-formed attributes: any tail of it completes a truncated input.
+var c02PreviousBig = func() []byte { //nolint:gochecknoglobals
+	m := stun.MustBuild(stun.BindingSuccess, stun.NewTransactionIDSetter([12]byte{8, 8, 8}))
+	for k := 0; k < 150; k++ {
+		m.Add(stun.AttrType(0x7e00+k%3), []byte{byte(k), 1, 2, 3})
+	}
+
+	return append([]byte(nil), m.Raw...)
+}()
 
 var c02Previous = stun.MustBuild(stun.BindingSuccess, stun.NewTransactionIDSetter([12]byte{9, 9, 9}), //nolint:gochecknoglobals
 	stun.NewSoftware("previous"), stun.NewUsername("previous-user"), stun.RawAttribute{Type: 0x8020, Value: []byte{1, 2, 3, 4, 5, 6, 7, 8}}).Raw
